@@ -194,3 +194,73 @@ func VH_C13_manyDeletes() {
 	vAssert(ok && v == 3 && s.Len() == 1, "some-sequential-order-explains-both-results")
 	vCover("many-deletes")
 }
+
+// ---- C10: "at any nesting depth", well beyond the symbolic instances: one run through a tower of
+// `depth` flows around a two-node chain (concrete)
+func VH_C10_deep() {
+	depth := vParam("depth", 70)
+	a, b := &vSimpleNode{act: DefaultAction}, &vSimpleNode{act: "up"}
+	f := NewFlow(a)
+	f.Connect(a, DefaultAction, b)
+	var top Node = f
+	for d := 1; d < depth; d++ {
+		top = NewFlow(top) // a flow whose only node is the previous flow: it reports that flow's action
+	}
+	after := &vSimpleNode{act: "end"}
+	outer := NewFlow(top)
+	outer.Connect(top, "up", after)
+	err := outer.Run(vNewCtx(), NewSharedStore())
+	vAssert(err == nil, "nested-run-equals-flattened-machine:outcome")
+	vAssert(a.visits == 1 && b.visits == 1 && after.visits == 1, "nested-run-equals-flattened-machine:visit-order")
+	vCover("deep-tower")
+}
+
+// ... and many independent nested runs in flight at the same time (each on its own objects; run i's
+// innermost node starts run i+1 on another goroutine and waits for it, so all of them are inside
+// their innermost flow together): none of them is affected by the others
+type c10SpawnNode struct {
+	*BaseNode
+	next   func() // starts the next run and waits for it
+	visits int
+}
+
+func (n *c10SpawnNode) Post(ctx context.Context, s *SharedStore, p, e any) (Action, error) {
+	n.visits++
+	if n.next != nil {
+		n.next()
+	}
+	return "up", nil
+}
+
+func VH_C10_manyRuns() {
+	runs, depth := vParam("runs", 20), vParam("depth", 4)
+	ok := make([]bool, runs)
+	var start func(i int)
+	start = func(i int) {
+		leaf := &c10SpawnNode{BaseNode: NewBaseNode()}
+		if i+1 < runs {
+			leaf.next = func() {
+				done := false
+				go func() {
+					start(i + 1)
+					vMon(func() { done = true })
+				}()
+				vBlockUntil(func() bool { return done })
+			}
+		}
+		var top Node = NewFlow(leaf)
+		for d := 1; d < depth; d++ {
+			top = NewFlow(top)
+		}
+		after := &vSimpleNode{act: "end"}
+		outer := NewFlow(top)
+		outer.Connect(top, "up", after)
+		err := outer.Run(vNewCtx(), NewSharedStore())
+		ok[i] = err == nil && leaf.visits == 1 && after.visits == 1
+	}
+	start(0)
+	for i := 0; i < runs; i++ {
+		vAssert(ok[i], "nested-run-equals-flattened-machine:outcome")
+	}
+	vCover("many-runs-in-flight")
+}
